@@ -241,16 +241,136 @@ impl SubCheck for Sizes {
 	}
 }
 
+// ---------------------------------------------------------------------------------------------
+// S-tcp slice: the default `Server` (accept loop, real sockets, real clock)
+// ---------------------------------------------------------------------------------------------
+
+pub struct SizesTcp;
+
+async fn run_tcp(case: &SizeCase, obs: &mut Obs) -> Result<(), String> {
+	use tokio::io::{AsyncReadExt, AsyncWriteExt};
+	use tokio::net::TcpStream;
+	let size = target_size(case.max_request, case.rel);
+	let method = format!("echo_{}", KINDS[case.kind as usize % 3]);
+	let Some((bytes, _echoed)) = sized_request(size, case.pad, &method) else { return Ok(()) };
+	let over = size > case.max_request as usize;
+	let ctx = std::sync::Arc::new(HCtx { log: Default::default(), gates: Gates::default(), actors: Default::default(), guard_seen: Default::default() });
+	let module = build_module(ctx.clone());
+	let cfg = Cfg { max_request: case.max_request, max_response: case.max_response, ..Cfg::default() };
+	let server = jsonrpsee_server::Server::builder().set_config(server_config(&cfg, false)).build("127.0.0.1:0").await.map_err(|e| format!("INCONCLUSIVE bind: {e}"))?;
+	let addr = server.local_addr().map_err(|e| format!("INCONCLUSIVE {e}"))?;
+	let handle = server.start(module);
+	let wall = std::time::Duration::from_secs(20);
+	let desc = format!("TCP Server: max_request={} max_response={} size={} pad={:?} via={:?}", case.max_request, case.max_response, size, case.pad, case.via);
+	match &case.via {
+		Via::WsText | Via::WsBinary => {
+			let s = TcpStream::connect(addr).await.map_err(|e| format!("INCONCLUSIVE connect {e}"))?;
+			let mut ws = WsPeer::connect(s, tokio::spawn(async {})).await.map_err(|e| format!("INCONCLUSIVE handshake {e}"))?;
+			if case.via == Via::WsText { ws.send_text(std::str::from_utf8(&bytes).unwrap()).await } else { ws.send_binary(&bytes).await }.map_err(|e| format!("INCONCLUSIVE send {e}"))?;
+			let first = tokio::time::timeout(wall, ws.events.recv()).await.map_err(|_| "INCONCLUSIVE no reply within the wall budget".to_string())?;
+			let log = ctx.log_since(0);
+			match first {
+				Some(WsEvent::Text(t)) => {
+					let v: Value = serde_json::from_str(&t).unwrap_or(Value::Null);
+					if over {
+						obs.check(log.is_empty(), "c07/server-ws-oversized-request-processed", || format!("{desc}: {log:?}"));
+						obs.check(v["error"]["code"] == json!(-32007) && v["id"].is_null(), "c07/server-ws-oversized-request-answer", || format!("{desc}: {t}"));
+					} else {
+						obs.check(log.len() == 1, "c07/server-ws-within-limit-request-not-processed", || format!("{desc}: {log:?} {}", truncate(&t, 300)));
+					}
+				}
+				other => obs.fail("c07/server-ws-unexpected-event", format!("{desc}: {other:?}")),
+			}
+			// still serving
+			let _ = ws.send_text(r#"{"jsonrpc":"2.0","id":"s","method":"echo_sync"}"#).await;
+			let second = tokio::time::timeout(wall, ws.events.recv()).await.map_err(|_| "INCONCLUSIVE no sentinel reply".to_string())?;
+			obs.check(matches!(&second, Some(WsEvent::Text(t)) if t.contains("\"id\":\"s\"")), "c07/server-ws-connection-dead-after-message", || format!("{desc}: {second:?}"));
+		}
+		via => {
+			let cl = !matches!(via, Via::HttpNoContentLength | Via::HttpChunked(_, false));
+			let mut s = TcpStream::connect(addr).await.map_err(|e| format!("INCONCLUSIVE connect {e}"))?;
+			let head = if cl {
+				format!("POST / HTTP/1.1\r\nHost: localhost\r\nContent-Type: application/json\r\nConnection: close\r\nContent-Length: {}\r\n\r\n", bytes.len())
+			} else {
+				"POST / HTTP/1.1\r\nHost: localhost\r\nContent-Type: application/json\r\nConnection: close\r\nTransfer-Encoding: chunked\r\n\r\n".to_string()
+			};
+			let _ = s.write_all(head.as_bytes()).await;
+			if cl {
+				let _ = s.write_all(&bytes).await;
+			} else {
+				// real chunked transfer encoding, cut as the case says
+				let pos: Vec<usize> = match via {
+					Via::HttpChunked(cuts, _) => cuts.iter().map(|c| pick_idx(*c, bytes.len() + 1)).collect(),
+					_ => vec![],
+				};
+				for f in crate::props::c19::cut(&bytes, &pos) {
+					if f.is_empty() {
+						continue;
+					}
+					let _ = s.write_all(format!("{:x}\r\n", f.len()).as_bytes()).await;
+					let _ = s.write_all(&f).await;
+					let _ = s.write_all(b"\r\n").await;
+				}
+				let _ = s.write_all(b"0\r\n\r\n").await;
+			}
+			let mut buf = vec![];
+			tokio::time::timeout(wall, s.read_to_end(&mut buf)).await.map_err(|_| "INCONCLUSIVE no HTTP response within the wall budget".to_string())?.ok();
+			let text = String::from_utf8_lossy(&buf).to_string();
+			let status: u16 = text.split_whitespace().nth(1).and_then(|x| x.parse().ok()).unwrap_or(0);
+			let log = ctx.log_since(0);
+			if over {
+				obs.check(log.is_empty(), "c07/server-http-oversized-request-processed", || format!("{desc}: {log:?}"));
+				obs.check(status >= 400, "c07/server-http-oversized-request-not-rejected", || format!("{desc}: {}", truncate(&text, 300)));
+			} else {
+				obs.check(log.len() == 1 && status == 200, "c07/server-http-within-limit-request-not-processed", || format!("{desc}: status {status} {log:?}"));
+			}
+		}
+	}
+	let _ = handle.stop();
+	let _ = tokio::time::timeout(wall, handle.stopped()).await;
+	Ok(())
+}
+
+impl SubCheck for SizesTcp {
+	type Case = SizeCase;
+	fn name(&self) -> &'static str {
+		"request-sizes-over-tcp"
+	}
+	fn cases(&self, tier: Tier) -> u32 {
+		tier.pick(400, 8_000)
+	}
+	fn strategy(&self, tier: Tier) -> BoxedStrategy<SizeCase> {
+		Sizes.strategy(tier).prop_map(|mut c| {
+			c.entry = EntryPoint::TowerService;
+			c
+		}).boxed()
+	}
+	fn run(&self, case: &SizeCase, obs: &mut Obs) {
+		let size = target_size(case.max_request, case.rel);
+		if case.max_request != case.max_response && size.abs_diff(case.max_request as usize) <= 1 {
+			obs.nontrivial();
+		}
+		let rt = tokio::runtime::Builder::new_multi_thread().worker_threads(2).enable_all().build().unwrap();
+		let r = rt.block_on(run_tcp(case, obs));
+		rt.shutdown_timeout(std::time::Duration::from_millis(100));
+		match r {
+			Ok(()) => obs.class("completed"),
+			Err(_) => obs.class("inconclusive"),
+		}
+	}
+}
+
 pub fn check(ctx: &mut Ctx) {
 	ctx.rule = "valid calls (and one-entry batches) padded to an exact byte size relative to max_request_body_size (limit-2..limit+2, x0.5, x2, x10) by interior / leading / trailing blanks or a long string param, \
 		for every pair (max_request, max_response) of a grid of six values incl. unequal ones, delivered as WS text/binary frame, HTTP with/without Content-Length, HTTP chunked, through the TowerService and through the low-level ws::connect / http::call_with_service_builder entry points. \
 		Oracle: size <= max_request <=> handler ran once and the normal reply (or -32008/-32011 if only the reply is too big); otherwise invocation log unchanged, -32007/id null on WS with the connection still serving, status >= 400 on HTTP. \
 		Non-trivial = size within +-1 of the request limit with max_request != max_response; distinct by case value."
 		.into();
-	ctx.assumptions = vec!["message size = WebSocket payload length / HTTP body length in bytes".into(), "the TCP `Server` entry point is exercised by the C10/C11 fixtures (S-tcp slice)".into()];
+	ctx.assumptions = vec!["message size = WebSocket payload length / HTTP body length in bytes".into(), "the default `Server` (accept loop, real sockets, HTTP chunked transfer encoding on the wire) is covered by the real-clock sub-check request-sizes-over-tcp; a missed wall budget there is inconclusive".into()];
 	ctx.run_sub(&Sizes);
+	ctx.run_sub(&SizesTcp);
 }
 
 pub fn replay(file: &serde_json::Value) -> Option<i32> {
-	replay_with(&Sizes, file, "C07")
+	replay_with(&Sizes, file, "C07").or_else(|| replay_with(&SizesTcp, file, "C07"))
 }
